@@ -43,6 +43,7 @@ WL = os.path.join(harness.VERIF, "checks", "c05_workload.py")
 
 
 def cases(tier, seed):
+    yield dict(w="unpicklable", part=0)
     for w in ALL_W:
         for j in range(PARTS):
             yield dict(w=w, part=j)
@@ -136,8 +137,52 @@ def path_class(p):
     return "dir"
 
 
+def unpicklable_result(x):
+    return ["res", x, (lambda: x)]
+
+
+def run_unpicklable(ctx):
+    """no kill at all: a result that cannot be pickled must not leave a (necessarily incomplete) file under the final name"""
+    import glob
+    import warnings
+    import joblib
+    from joblib import Memory
+    d = harness.mkscratch("vjl-c05-unp-")
+    try:
+        for compress in (False, True):
+            with warnings.catch_warnings():
+                warnings.simplefilter("ignore")
+                c = Memory(os.path.join(d, f"c{int(compress)}"), verbose=0, compress=compress).cache(unpicklable_result)
+                v = c(3)
+                ctx.evaluated()
+                ctx.count("unpicklable_results_stored")
+                desc = dict(workload="result that cannot be pickled", compress=compress)
+                if v[:2] != ["res", 3]:
+                    ctx.violation("wrong-value:unpicklable-result", f"call returned {v[:2]}", desc)
+                bad = []
+                for p in glob.glob(os.path.join(d, f"c{int(compress)}", "**", "output.pkl"), recursive=True):
+                    try:
+                        joblib.load(p)
+                    except Exception as e:  # noqa
+                        bad.append((os.path.getsize(p), type(e).__name__))
+                if bad:
+                    ctx.violation("incomplete-final-file:unpicklable-result", f"a result that could not be pickled left output.pkl files that do not load: {bad} "
+                                                                              f"(size, error); compress={compress}", desc)
+                try:
+                    again = c(3)       # (a reference to a result that cannot be stored has nothing to read: not asked for)
+                    if again[:2] != ["res", 3]:
+                        ctx.violation("wrong-value:unpicklable-result", f"repeat returned {again[:2]}", desc)
+                except Exception as e:  # noqa
+                    ctx.violation(f"{type(e).__name__}@repeat-after-unpicklable-result", f"repeating the call raised {type(e).__name__}: {str(e)[:120]}", desc)
+        ctx.sig(("unpicklable",))
+    finally:
+        shutil.rmtree(d, ignore_errors=True)
+
+
 def run_case(case, ctx):
     w = case["w"]
+    if w == "unpicklable":
+        return run_unpicklable(ctx)
     work = harness.mkscratch(f"vjl-c05-{w}-")
     try:
         base = os.path.join(work, "base")
